@@ -231,7 +231,8 @@ def run(ctx):
     n = 3000 if quick else 40000
     rp = []
     atoms = ['a', 'b', '1', ' ', '  ', '\n', '\t', '.', '...', "'", '"', "u'", "b'", 'x', ', ', '{', '}', B, B + '\n',
-             '\x1b[31m', '\x1b[0m', '\r', '\r\n', ':', '<', 'ur"', ' \n', '\xa0']
+             '\x1b[31m', '\x1b[0m', '\r', '\r\n', ':', '<', 'ur"', ' \n', '\xa0', '\u2028', '\u3000', '\x0c', '\x1c', '\x85', '\xe9', '\xdf',
+             '\x1b[1;32m', "U'", 'Rb"', "bR'"]
     for _ in range(n):
         want = ''.join(rng.choice(atoms) for _ in range(rng.randint(1, 12)))
         got = want
